@@ -75,7 +75,7 @@ impl AlignHash for core::ops::RangeFull {
 
 impl MaxSizeOf for core::ops::RangeFull {
     fn max_size_of() -> usize {
-        0
+        1
     }
 }
 
